@@ -13,6 +13,7 @@ mod c13;
 mod c15;
 mod c16b;
 mod c10b;
+mod search_frames;
 mod c12b;
 mod c12c;
 mod c06;
@@ -44,6 +45,7 @@ fn main() {
     all.extend(c15::witnesses());
     all.extend(c16b::witnesses());
     all.extend(c10b::witnesses());
+    all.extend(search_frames::witnesses());
     all.extend(c12b::witnesses());
     all.extend(c12c::witnesses());
     all.extend(c06::witnesses());
